@@ -283,6 +283,7 @@ class Interp:
             self.path = p
             zu.ORACLE[0] = p.entails
             zu.UNIQUE[0] = p.unique_int
+            zu.BRANCH[0] = lambda c, _p=p: _p.branch(c)
             if not _NO_RESET:
                 self._reset_module_state()
             zu.NTH_HOOK[0] = self._named_nth
